@@ -31,6 +31,10 @@ NoBody == [supplied |-> 0, stored |-> << >>, refused |-> FALSE, err |-> FALSE]
 Unset  == <<0 - 1>>     \* marker for "REQUEST_BODY was never populated"
 
 Off == st.engine = "Off"
+\* body access in force: the configured one unless a ctl action changed it
+Access(side, ov) == IF ov = "cfg" THEN side.access ELSE ov = "On"
+ReqAccess  == Access(cfg.req, st.reqAccess)
+RespAccess == Access(cfg.resp, st.respAccess)
 
 \* The limit action in force.  DetectionOnly never disrupts: it processes the part of the body
 \* that fits (waf.go applies this at configuration time; the same holds after ctl:ruleEngine).
@@ -66,7 +70,7 @@ ProcessRequestBody ==
      ELSE IF st.intr # None THEN Ret("PRB", 0, st.intr, 0) /\ UNCHANGED <<st, lastPhase, reqBodyVar>>
      ELSE IF lastPhase = 1
        THEN /\ st' = Run(st, 2) /\ lastPhase' = 2
-            /\ reqBodyVar' = IF cfg.req.access /\ rq.stored # << >> THEN rq.stored ELSE reqBodyVar
+            /\ reqBodyVar' = IF ReqAccess /\ rq.stored # << >> THEN rq.stored ELSE reqBodyVar
             /\ Ret("PRB", 0, st'.intr, 0)
        ELSE \* out of order (before the headers phase, or a second time): never evaluated again
             Ret("PRB", 0, None, 0) /\ UNCHANGED <<st, lastPhase, reqBodyVar>>
@@ -107,8 +111,9 @@ Refusal(side) == [id |-> 0, action |-> "deny", status |-> IF side = "req" THEN 4
 
 \* result of offering k bytes to buffer b of a side with configuration c
 \*   [b, st, lastPhase, ret, n]
-Offer(sideName, c, b, k, mode) ==
-  LET len   == Len(b.stored)
+Offer(sideName, c0, b, k, mode) ==
+  LET c     == [c0 EXCEPT !.access = IF sideName = "req" THEN ReqAccess ELSE RespAccess]
+      len   == Len(b.stored)
       act   == EffAction(c)
       room  == c.limit - len
       reach == len + k >= c.limit            \* the cumulative size reaches the limit
@@ -189,23 +194,25 @@ OffEvaluatesNothing ==
 
 \* byte-faithful buffering: the stored bytes are the first bytes supplied, at most `limit` of them
 IsPrefixOfSupplied(b) == \A j \in 1..Len(b.stored) : b.stored[j] = j
-Faithful == /\ (~rq.refused => IsPrefixOfSupplied(rq)) /\ Len(rq.stored) <= cfg.req.limit
-            /\ (~rs.refused => IsPrefixOfSupplied(rs)) /\ Len(rs.stored) <= cfg.resp.limit
+\* (bytes offered while body access is switched off are not buffered: the prefix law is stated for
+\* transactions whose body access is not changed by ctl)
+Faithful == /\ ((~rq.refused /\ st.reqAccess = "cfg") => IsPrefixOfSupplied(rq)) /\ Len(rq.stored) <= cfg.req.limit
+            /\ ((~rs.refused /\ st.respAccess = "cfg") => IsPrefixOfSupplied(rs)) /\ Len(rs.stored) <= cfg.resp.limit
 
 \* Reject: refused exactly when the cumulative size reaches the limit (engine On throughout)
 RejectExact ==
-  (cfg.engine = "On" /\ cfg.req.action = "Reject" /\ cfg.req.access /\ st.engine = "On"
+  (cfg.engine = "On" /\ cfg.req.action = "Reject" /\ cfg.req.access /\ st.engine = "On" /\ st.reqAccess = "cfg"
      /\ (\A j \in 1..Len(cfg.rules) : \A a \in 1..Len(cfg.rules[j].links[1].acts) : cfg.rules[j].links[1].acts[a].a # "ctl"))
      => (rq.refused <=> rq.supplied >= cfg.req.limit)
 
 \* ProcessPartial: once the limit is reached exactly `limit` bytes are kept
 PartialExact ==
-  (cfg.req.action = "ProcessPartial" /\ cfg.req.access /\ cfg.engine # "Off" /\ st.engine # "Off" /\ rq.supplied >= cfg.req.limit
+  (cfg.req.action = "ProcessPartial" /\ cfg.req.access /\ st.reqAccess = "cfg" /\ cfg.engine # "Off" /\ st.engine # "Off" /\ rq.supplied >= cfg.req.limit
      /\ (\A j \in 1..Len(cfg.rules) : \A a \in 1..Len(cfg.rules[j].links[1].acts) : cfg.rules[j].links[1].acts[a].a # "ctl"))
      => Len(rq.stored) = cfg.req.limit
 
 \* what the body phase saw is what is stored (same bytes for the processor, the variable and the reader)
 BodyVarIsStoredPrefix ==
-  reqBodyVar # Unset => (\A j \in 1..Len(reqBodyVar) : reqBodyVar[j] = j) /\ Len(reqBodyVar) <= Len(rq.stored)
+  (reqBodyVar # Unset /\ st.reqAccess = "cfg") => (\A j \in 1..Len(reqBodyVar) : reqBodyVar[j] = j) /\ Len(reqBodyVar) <= Len(rq.stored)
 
 =============================================================================
